@@ -183,3 +183,21 @@ Theorem C06_nested_emphasis_instance :
   nest_ok 42 0 ($"Say ") ($"one") ps ($"four") ($".") = false.
 Proof. exact nested_instance. Qed.
 Print Assumptions C06_nested_emphasis_instance.
+
+(* EMPHASIS INSIDE A LINK'S TEXT: when a "]" closes a link, process_emphasis runs with the bracket as the bottom of the stack.  Every pair of
+   runs above the bracket is matched, in order, the bracket itself is never looked at, and nothing of the stack from the bracket up is
+   left (Proofs/LinkEmph.v: emph_loop_link, by induction on the number of pairs); with it the whole sentence theorem - a link whose
+   text holds emphasised phrases tokenizes to ONE Link holding the phrases (C03_link_with_emphasis) *)
+From Mistletoe Require Import Proofs.LinkEmph.
+Theorem C06_emphasis_above_a_bracket : forall s B pairs ms,
+  CoreTokens.d_close B = false -> Forall pair_ok pairs -> (length pairs <= 3 * length s + 3)%nat ->
+  CoreTokens.process_emphasis s (Some 0%Z) (B :: flat pairs) ms = ([], ms ++ map (match_of s) pairs).
+Proof. intros s B pairs ms HB. apply process_above_bracket; [rewrite HB; apply andb_false_r|exact HB]. Qed.
+Print Assumptions C06_emphasis_above_a_bracket.
+
+Theorem C06_link_with_emphasis : forall types fn pre h ps z dest post,
+  RefSentence.ref_spans types = true -> elink_ok pre h ps z dest post = true ->
+  Inline.tokenize_inner types fn (pre ++ [91%Z] ++ (h ++ EmphPhrases.body ps ++ z) ++ [93%Z; 40%Z] ++ dest ++ [41%Z] ++ post) =
+  EmphSentence.raw_if pre ++ [elink_of h ps z dest] ++ EmphSentence.raw_if post.
+Proof. exact link_with_emphasis. Qed.
+Print Assumptions C06_link_with_emphasis.
